@@ -78,6 +78,8 @@ type c09Relay struct {
 }
 
 type c09Env struct {
+	// silentPending: requests to relays that never answer which are still under way (the request's context has not ended)
+	silentPending int
 	// ghost: the validator's relay list starts with an entry for which no client can be made (its address carries
 	// a public key that is no hexadecimal), with settings of its own (no minimum value)
 	ghost    bool
@@ -248,11 +250,13 @@ func (r *c09Relay) BuilderBid(ctx context.Context, opts *builderapi.BuilderBidOp
 	}
 	switch lat := c09Lats[r.lat]; lat {
 	case -1:
+		r.env.silentPending++
 		d := ctx.Done()
 		if d == nil {
 			mc.Block(0)
 		}
 		mc.Block(mc.KeyOfRecv(d))
+		r.env.silentPending--
 		return nil, ctx.Err()
 	default:
 		if lat > 0 {
